@@ -327,10 +327,25 @@ func cmdCheck(args []string) {
 			samples = append(samples, map[string]string{"obligation": o.Name, "kind": o.Kind, "backend": be, "descr": o.Descr, "source": o.Pos})
 		}
 	}
-	// expected-obligation guard
+	// expected-obligation guard (vacuity): SMT and structural obligations by exact name; provenance obligations
+	// (whose names contain source text and so change with harmless edits) by a minimum count.
+	provCount := 0
+	for _, o := range res.Obls {
+		if o.Backend == "provenance" {
+			provCount++
+		}
+	}
 	if exp, ok := readExpected(prop); ok && !*writeExpected {
 		var missing []string
 		for n := range exp {
+			if strings.HasPrefix(n, "~min-provenance ") {
+				var want int
+				fmt.Sscanf(strings.TrimPrefix(n, "~min-provenance "), "%d", &want)
+				if provCount < want {
+					viol("provenance-obligation-count", fmt.Sprintf("only %d provenance obligations generated, at least %d expected", provCount, want), nil)
+				}
+				continue
+			}
 			if !names[n] {
 				missing = append(missing, n)
 			}
@@ -347,8 +362,13 @@ func cmdCheck(args []string) {
 	}
 	if *writeExpected {
 		var ns []string
-		for n := range names {
-			ns = append(ns, n)
+		for _, o := range res.Obls {
+			if o.Backend != "provenance" || strings.Contains(o.Name, "#fresh@") {
+				ns = append(ns, o.Name)
+			}
+		}
+		if provCount > 0 {
+			ns = append(ns, fmt.Sprintf("~min-provenance %d", provCount*9/10))
 		}
 		sort.Strings(ns)
 		os.MkdirAll(filepath.Join(verifDir(), "expected"), 0o755)
